@@ -990,6 +990,20 @@ AWithStateRet ==
 
 
 ---------------------------------------------------------------------------
+(* <<"extsub", a>>: an extension parser whose bodies run a sub-parser through InputRef::parse (in Emit mode) resp.   *)
+(* InputRef::check (in Check mode).  Both return the sub-parser's failure as a value: `take_alt().unwrap().err` -- the *)
+(* WHOLE pending error is taken -- and Ext::go files it again at the position where the extension parser started.   *)
+AExtSubStart ==
+  /\ Entering({"extsub"})
+  /\ LET f == Top IN Call([f EXCEPT !.pc = 1], 1, f.g[2], f.mode, cur, sec, insp, alt)
+AExtSubRet ==
+  /\ Resuming({"extsub"}, 1)
+  /\ LET f == Top IN
+     IF ret.ok THEN Keep(OkRet(ret.val))
+     ELSE IF ~alt.some THEN Panic
+     ELSE Return(ErrRet, cur, sec, insp, AddAltErr(Ety, NoAlt, f.cp.cur, alt.err))
+
+---------------------------------------------------------------------------
 (* a.nested_in(b) (NestedIn::go, InputRef::with_input), g = <<"nested", a, b>>:                  *)
 (*   pc 1  b in Emit mode yields the inner input (a flat range VIn(lo, hi))                        *)
 (*   pc 2  the outer alt is taken away; a.then_ignore(end()) runs on the inner input with FRESH    *)
@@ -1213,7 +1227,7 @@ CoreNext ==
   \/ ALabelStart \/ ALabelRet \/ AMapErrRet
   \/ AMemoStart \/ AMemoRet \/ ARecStart \/ ARefStart \/ ALetStart \/ AVarStart \/ APassRet
   \/ ANestedStart \/ ANestedBRet \/ ANestedARet
-  \/ ATextStart \/ ATPaddedStart \/ ATPaddedRet
+  \/ ATextStart \/ ATPaddedStart \/ ATPaddedRet \/ AExtSubStart \/ AExtSubRet
   \/ AWithCtxStart \/ AThenCtxStart \/ AThenCtxARet \/ AThenCtxBRet \/ AWithStateStart \/ AWithStateRet
   \/ APrattStart \/ APrattPrefixScan \/ APrattPrefixRet \/ APrattAtomRet \/ APrattPostfixScan \/ APrattInfixScan \/ APrattInfixRet
   \/ Finish \/ ANextParse
